@@ -397,3 +397,16 @@ func NewFromExport(appState []byte, height int64, t time.Time) (c *Chain, err er
 	app.Commit()
 	return &Chain{App: app, DB: db, Height: height, Time: t, Accounts: map[string]Account{}, BlockStep: 6 * time.Second}, nil
 }
+
+// Perm: a random permutation of 0..n-1.
+func (r *Rng) Perm(n int) []int {
+	p := make([]int, n)
+	for i := range p {
+		p[i] = i
+	}
+	for i := n - 1; i > 0; i-- {
+		j := r.Intn(i + 1)
+		p[i], p[j] = p[j], p[i]
+	}
+	return p
+}
